@@ -30,11 +30,13 @@ LEVEL_TEXT = ('static analysis: (D1) region_depth_count interpreted on one read 
               'alignment file (file model with modification times); to_chunks -- interpreted exhaustively for chunk sizes 1..3 and every line '
               'count 0..3c+1, with comment lines -- yields every non-comment line exactly once, in order, in closed files of at most chunk_size '
               'lines. (D8) ensure_bam_sorted on literal read lists: coordinate-sorted files of one to three contigs are accepted (positions '
-              'restarting at a contig switch, ties), disorder within a contig inside the inspected span is refused, by name likewise. (CLI) the '
-              '`coverage` command line(s), through a model of argparse built from the declarations in commands.py and the real _cmd_ body '
-              'interpreted with readers, library step and writers stubbed: BAM and regions in their roles, -c, -q, -p, -f reach do_coverage as '
-              'given; the default output name is <bam>.(anti)targetcoverage.cnn. Does not decide that the number of aligned bases is what '
-              "samtools reports, nor equality of the two algorithms on real reads (bedcov's own flag filter is trusted).")
+              'restarting at a contig switch, ties), disorder within a contig inside the inspected span is refused, by name likewise. D5b has one'
+              ' interval listed twice under two names (two rows, each with its own name); the regions file is read as the format it is in '
+              '(C08-D3c rule on literal files). (CLI) the `coverage` command line(s), through a model of argparse built from the declarations in '
+              'commands.py and the real _cmd_ body interpreted with readers, library step and writers stubbed: BAM and regions in their roles, '
+              '-c, -q, -p, -f reach do_coverage as given; the default output name is <bam>.(anti)targetcoverage.cnn. Does not decide that the '
+              "number of aligned bases is what samtools reports, nor equality of the two algorithms on real reads (bedcov's own flag filter is "
+              'trusted).')
 TECHNIQUE = ('abstract interpretation of the read filter / depth arithmetic over finite flag and order domains; registry of the samtools '
              'arguments; ordered fan-out rule; interpretation of the serial and parallel drivers with a pool stub; small-scope exhaustive '
              'interpretation of the chunker')
